@@ -93,8 +93,9 @@ def build_lean(prop, leanchecker=False):
     """lake build of the property module and the driver; axiom audit of every obligation.
     Returns (driver path, audit dict)."""
     ob = obligations(prop)
+    mods = ob["module"] if isinstance(ob["module"], list) else ([ob["module"]] if ob["module"] else [])
     with Lock():
-        targets = ["cfdriver"] + ([ob["module"]] if ob["module"] else [])
+        targets = ["cfdriver"] + mods
         r = subprocess.run(["lake", "build"] + targets, cwd=LEAN, stdout=subprocess.PIPE,
                            stderr=subprocess.STDOUT, text=True)
         if r.returncode != 0:
@@ -107,7 +108,8 @@ def build_lean(prop, leanchecker=False):
             os.makedirs(os.path.join(VERIF, "work"), exist_ok=True)
             af = os.path.join(VERIF, "work", "Audit_%s_%d.lean" % (prop, os.getpid()))
             with open(af, "w") as f:
-                f.write("import %s\n" % ob["module"])
+                for mod in mods:
+                    f.write("import %s\n" % mod)
                 for t in ob["theorems"]:
                     f.write("#print axioms %s\n" % t)
             r = subprocess.run(["lake", "env", "lean", af], cwd=LEAN, stdout=subprocess.PIPE,
@@ -128,11 +130,12 @@ def build_lean(prop, leanchecker=False):
                 if bad:
                     raise BuildError("theorem %s depends on unexpected axioms %s" % (t, bad), r.stdout[-3000:])
                 audit[t] = axs
-        if leanchecker and ob["module"]:
-            r = subprocess.run(["lake", "env", "leanchecker", ob["module"]], cwd=LEAN,
-                               stdout=subprocess.PIPE, stderr=subprocess.STDOUT, text=True)
-            if r.returncode != 0:
-                raise BuildError("leanchecker rejected %s" % ob["module"], r.stdout[-3000:])
+        if leanchecker and mods:
+            for mod in mods:
+                r = subprocess.run(["lake", "env", "leanchecker", mod], cwd=LEAN,
+                                   stdout=subprocess.PIPE, stderr=subprocess.STDOUT, text=True)
+                if r.returncode != 0:
+                    raise BuildError("leanchecker rejected %s" % mod, r.stdout[-3000:])
             audit["_leanchecker"] = "ok"
         src = os.path.join(LEAN, ".lake", "build", "bin", "cfdriver")
         dst = os.path.join(VERIF, "work", "cfdriver-%d" % os.getpid())
